@@ -76,13 +76,17 @@ def _const(x):
         if math.isnan(x) or math.isinf(x):
             return None
         if x != 0.0 and not _short_decimal(x, 12):
-            # T5: rational multiples of pi and of 1/pi stay exact
-            r = x / math.pi
-            if _short_decimal(r) and abs(float(Fraction(repr(r))) * math.pi - x) <= 4 * abs(math.ulp(x)):
-                return _q(Fraction(repr(r))) * F.PI
-            r = x * math.pi
-            if _short_decimal(r) and abs(float(Fraction(repr(r))) / math.pi - x) <= 4 * abs(math.ulp(x)):
-                return _q(Fraction(repr(r))) / F.PI
+            # T5: rational multiples of pi and of 1/pi stay exact (pi/180, 180/pi, 2*pi*50, pi*1e-9*f, ...)
+            for r, inv in ((x / math.pi, False), (x * math.pi, True)):
+                cands = [Fraction(r).limit_denominator(100000)]
+                if _short_decimal(r):
+                    cands.insert(0, Fraction(repr(r)))
+                for fr in cands:
+                    if fr == 0 or abs(fr.numerator) > 10 ** 9:
+                        continue
+                    back = float(fr) / math.pi if inv else float(fr) * math.pi
+                    if abs(back - x) <= 4 * abs(math.ulp(x)):
+                        return _q(fr) / F.PI if inv else _q(fr) * F.PI
         return _q(Fraction(repr(x)))          # T2: shortest round-trip decimal
     if isinstance(x, Fraction):
         return _q(x)
